@@ -39,8 +39,8 @@ impl Prop {
 pub struct Stats {
 	pub c: BTreeMap<&'static str, u64>,
 	pub ops: BTreeMap<String, u64>,
-	/// distinct (pre-state class, op, arg class, lifecycle) tuples reached
-	pub tuples: std::collections::BTreeSet<(String, String, String, u8)>,
+	/// distinct (pre-state class, op, arg class, lifecycle) tuples reached (hashed)
+	pub tuples: std::collections::HashSet<u64>,
 }
 
 impl Stats {
@@ -65,8 +65,14 @@ impl Stats {
 			*self.ops.entry(k.clone()).or_insert(0) += v;
 		}
 		for t in &o.tuples {
-			self.tuples.insert(t.clone());
+			self.tuples.insert(*t);
 		}
+	}
+	pub fn tuple(&mut self, pre: &str, op: &str, arg: &str, life: u8) {
+		use std::hash::{Hash, Hasher};
+		let mut h = std::collections::hash_map::DefaultHasher::new();
+		(pre, op, arg, life).hash(&mut h);
+		self.tuples.insert(h.finish());
 	}
 	pub fn get(&self, k: &str) -> u64 {
 		self.c.get(k).copied().unwrap_or(0)
@@ -602,6 +608,9 @@ impl Exec {
 					_ => arg_class_opt(val),
 				};
 				let name = step.name();
+				if !quiet {
+					probes_set(&pre, *comp, val.as_deref(), stats);
+				}
 				let o = self.owner.as_mut().unwrap();
 				match guarded(|| o.set(*comp, val.as_deref())) {
 					Caught::Ok(true) => {}
@@ -618,6 +627,9 @@ impl Exec {
 				if self.text() != &pre[..] {
 					self.mutated = true;
 				}
+				if armed04 && !quiet {
+					stats.tuple(&sig_pre, &name, &sig_arg, 0);
+				}
 				if let Some(v) = self.wf(idx, &name, &pre, sig_pre, sig_arg) {
 					return v;
 				}
@@ -628,6 +640,9 @@ impl Exec {
 					return Outcome::Invalid;
 				}
 				let name = step.name();
+				if !quiet {
+					probes_resolve(&pre, base.as_bytes(), stats);
+				}
 				let sig_pre = ctx_class(kind, &pre);
 				let sig_arg = ctx_class(kind, base.as_bytes());
 				if *by_value {
@@ -680,6 +695,9 @@ impl Exec {
 							sig_arg,
 						);
 					}
+				}
+				if armed04 && !quiet {
+					stats.tuple(&sig_pre, &name, &sig_arg, 0);
 				}
 				if let Some(v) = self.wf(idx, &name, &pre, sig_pre, sig_arg) {
 					return v;
@@ -785,6 +803,9 @@ impl Exec {
 						return violation(Prop::C10, f.oracle, idx, None, &name, f.message, Some(&pre), f.expected.as_deref(), Some(&post), sig_pre, sig_arg);
 					}
 				}
+				if armed04 && !quiet {
+					stats.tuple(&sig_pre, &name, &sig_arg, 0);
+				}
 				if let Some(v) = self.wf(idx, &name, &pre, sig_pre, sig_arg) {
 					return v;
 				}
@@ -846,6 +867,10 @@ impl Exec {
 		}
 
 		if prop == Prop::C04 {
+			for i in 0..ops.len() {
+				let (sp, sa) = sig_of(i, b_before(i));
+				stats.tuple(&sp, &ops[i].op.name(), &sa, ops[i].life as u8);
+			}
 			// oracle 2 on every observable intermediate text of both runs
 			for (log, which) in [(&b, "B"), (&a, "A")] {
 				let mut texts: Vec<(usize, &[u8])> = Vec::new();
@@ -894,7 +919,7 @@ impl Exec {
 			let unwound = b.unwound.contains(&i);
 			let (sp, sa) = sig_of(i, before);
 			let opn = ops[i].op.name();
-			stats.tuples.insert((sp.clone(), opn.to_string(), sa.clone(), 1));
+			stats.tuple(&sp, &opn, &sa, 1);
 			// Both readings of a leading '.' in the text before the edit are kept (shield or
 			// segment): the text cannot tell them apart, so no implementation working on the
 			// text can be asked to (see DESIGN 2.4).
@@ -919,7 +944,7 @@ impl Exec {
 				Life::Reopen => 1,
 				Life::Leak => 2,
 			};
-			stats.tuples.insert((sp.clone(), opn.to_string(), sa.clone(), if i == 0 { 1 } else { life }));
+			stats.tuple(&sp, &opn, &sa, if i == 0 { 1 } else { life });
 			if a.views[i] != b.views[i] {
 				return violation(
 					Prop::C10,
@@ -1074,6 +1099,10 @@ impl Exec {
 		}
 
 		if prop == Prop::C04 {
+			for i in 0..ops.len() {
+				let (sp, sa) = sig_of(i, b_before(i));
+				stats.tuple(&sp, &ops[i].op.name(), &sa, ops[i].life as u8);
+			}
 			for (log, which) in [(&b, "B"), (&a, "A")] {
 				let mut texts: Vec<(usize, &[u8])> = Vec::new();
 				for (i, t) in log.between.iter().enumerate().skip(1) {
@@ -1118,7 +1147,7 @@ impl Exec {
 			let after = b_after(i);
 			let (sp, sa) = sig_of(i, before);
 			let opn = ops[i].op.name();
-			stats.tuples.insert((sp.clone(), opn.to_string(), sa.clone(), 1));
+			stats.tuple(&sp, &opn, &sa, 1);
 			let (exp_text, exp_auth) = match expected_after_auth_op(before, &ops[i].op) {
 				Some(x) => x,
 				None => {
@@ -1160,7 +1189,7 @@ impl Exec {
 				Life::Reopen => 1,
 				Life::Leak => 2,
 			};
-			stats.tuples.insert((sp.clone(), opn.to_string(), sa.clone(), if i == 0 { 1 } else { life }));
+			stats.tuple(&sp, &opn, &sa, if i == 0 { 1 } else { life });
 			if a.views[i] != b.views[i] {
 				return violation(
 					Prop::C11,
@@ -1217,6 +1246,75 @@ impl Exec {
 			}
 		}
 		Outcome::Ok
+	}
+}
+
+/// Reach probes for the disambiguation branches of the whole-buffer setters.
+fn probes_set(pre: &[u8], comp: Comp, val: Option<&str>, stats: &mut Stats) {
+	let s = split5(pre);
+	let p = s.path(pre);
+	let first_has_colon = |p: &[u8]| p.split(|b| *b == b'/').next().map(|x| x.contains(&b':')).unwrap_or(false);
+	match (comp, val) {
+		(Comp::Path, Some(v)) => {
+			let v = v.as_bytes();
+			if s.authority.is_none() && v.starts_with(b"//") {
+				stats.hit("probe_set_path_slashslash_without_authority");
+			}
+			if s.authority.is_some() && !v.starts_with(b"/") {
+				stats.hit("probe_set_relative_path_with_authority");
+			}
+			if s.scheme.is_none() && s.authority.is_none() && first_has_colon(v) {
+				stats.hit("probe_set_path_colon_first_segment_bare");
+			}
+		}
+		(Comp::Scheme, None) => {
+			if s.scheme.is_some() && s.authority.is_none() && first_has_colon(p) {
+				stats.hit("probe_remove_scheme_before_colon_segment");
+			}
+		}
+		(Comp::Authority, None) => {
+			if s.authority.is_some() && p.starts_with(b"//") {
+				stats.hit("probe_remove_authority_before_slashslash_path");
+			}
+		}
+		(Comp::Authority, Some(_)) => {
+			if s.authority.is_none() && !p.starts_with(b"/") {
+				stats.hit("probe_add_authority_before_relative_path");
+			}
+		}
+		(Comp::Query, Some(_)) | (Comp::Fragment, Some(_)) => {
+			if !pre.is_ascii() {
+				stats.hit("probe_setter_on_multibyte_text");
+			}
+		}
+		_ => {}
+	}
+}
+
+/// Reach probes for the five branches of RFC 3986 5.2.2.
+fn probes_resolve(reference: &[u8], base: &[u8], stats: &mut Stats) {
+	let r = split5(reference);
+	let b = split5(base);
+	let rp = r.path(reference);
+	stats.hit(if r.scheme.is_some() {
+		"probe_resolve_branch_scheme"
+	} else if r.authority.is_some() {
+		"probe_resolve_branch_authority"
+	} else if rp.is_empty() {
+		"probe_resolve_branch_empty_path"
+	} else if rp.starts_with(b"/") {
+		"probe_resolve_branch_absolute_path"
+	} else {
+		"probe_resolve_branch_merge"
+	});
+	if b.authority.is_some() && b.path(base).is_empty() {
+		stats.hit("probe_resolve_base_authority_empty_path");
+	}
+	if b.path(base).starts_with(b"//") {
+		stats.hit("probe_resolve_base_path_leading_empty_segment");
+	}
+	if rp.split(|c| *c == b'/').any(|s| s == b"..") {
+		stats.hit("probe_resolve_reference_with_dotdot");
 	}
 }
 
